@@ -26,6 +26,11 @@ def search(tier, seed):
             return total, ("a generated %s response does not parse to the value that was sent (independent RFC-derived printer, every spelling choice):\n"
                            "input %s\nparsed   %s\nexpected %s") % (kind, C.show_input(h), impl[:600], exp[:600]), samples, len(kinds)
     samples.append("valid: %s -> %s" % (C.show_input(rows[0][0], 80), rows[0][1][:80]))
+    npairs, bad = rtlib.range_metamorphic(seed)
+    total += npairs
+    if bad:
+        return total, bad, samples, len(kinds)
+    samples.append("ranges: %d pairs (a:b written 2:4 and 4:2) in responses read off the grammar" % npairs)
     return total, None, samples, len(kinds)
 
 
